@@ -75,6 +75,8 @@ def run(ctx):
     sto = [dict(job(D, "lin", m, c, seeds[0], opts={"stobads": True}), gamma=g) for D in Ds[:2] for m in ("auto", "decl", "spec") for c in (None, "ball") for g in (None, 5.0, 50.0)]
     # noisy modes with empty search sets (thin feasible band) under the incumbent rules that judge an "improvement" by uncertainty alone
     sto += [job(D, "lin", m, "slab", seeds[0], opts=o) for D in (1, 2) for m in ("decl", "spec", "auto") for o in ({"stobads": True}, {"improvement_quantile": 0.7}, {"improvement_quantile": 0.3})]
+    # empty search sets together with the hedge settings that touch the search set when scoring (hedge_gamma = 0)
+    sto += [job(D, "lin", m, "slab", seeds[0], opts=o) for D in (1, 2) for m in ("det", "decl") for o in ({"hedge_gamma": 0.0}, {"hedge_gamma": 0.0, "n_search_iter": 3}, {"hedge_decay": 0.5})]
     st = explore(sto, ["noise"], 0, sink, stats=st, name="stobads/b0")
     # (c) budget windows above the initial design x final samples (noisy) and deterministic
     n0 = {}
@@ -97,7 +99,7 @@ def run(ctx):
     adv = [job(D, g, "det", c, seeds[0], base=b) for D in Ds[:2] for g in ("lin", "log") for c in (None, "ball") for b in ("F", "E3")]
     # success-rich policies: many successful polls while the mesh is already at its maximum (overflow warning path), also with a float-valued threshold
     rich = [job(D, g, "det", None, seeds[0], base=b, opts=o) for D in (1, 2, 3) for g in ("lin", "unb") for b in ("S", "S2", "S3", "S4")
-            for o in ({}, {"mesh_overflow_warning": 1.0}, {"mesh_overflow_warning": 2})]
+            for o in ({}, {"mesh_overflow_warning": 1.0}, {"mesh_overflow_warning": 2}, {"poll_mesh_multiplier": 2}, {"poll_mesh_multiplier": 3})]
     st = explore(rich, ["ans"], 0, sink, stats=st, name="det/success-rich")
     st = explore(adv, ["ans"], 1 if q else 2, sink, stats=st, name="det/ans-b", pos_ok=(lambda k, p, r: p < 12) if q else (lambda k, p, r: p < 20),
                  cap=None if q else st["executions"] + 15000)
